@@ -25,7 +25,6 @@ import (
 	"os"
 	"os/exec"
 	"runtime"
-	"runtime/metrics"
 	"sort"
 	"strings"
 	"sync"
@@ -67,24 +66,20 @@ func (c *evictCtl) point(name string) {
 // cpuNow is the process CPU time not attributed to the garbage collector (the code under test forces a full
 // collection on every admission test and every eviction; its cost grows with the heap, not with the command).
 func cpuNow() time.Duration {
+	// plain process CPU time. (An earlier version subtracted the runtime's estimate of garbage-collector CPU, guarded by
+	// "if it is smaller than the total": the estimate is updated in bursts and can overtake the total, so the difference
+	// jumped by seconds within milliseconds and commands were declared spinning. The forced collections of the code under
+	// test are now covered by requiring wall time as well, see waitFor.)
 	var ru syscall.Rusage
 	if err := syscall.Getrusage(syscall.RUSAGE_SELF, &ru); err != nil {
 		return 0
 	}
-	total := time.Duration(ru.Utime.Nano() + ru.Stime.Nano())
-	sample := []metrics.Sample{{Name: "/cpu/classes/gc/total:cpu-seconds"}}
-	metrics.Read(sample)
-	if sample[0].Value.Kind() == metrics.KindFloat64 {
-		gc := time.Duration(sample[0].Value.Float64() * float64(time.Second))
-		if gc < total {
-			total -= gc
-		}
-	}
-	return total
+	return time.Duration(ru.Utime.Nano() + ru.Stime.Nano())
 }
 
 const (
 	evictCPUBudget  = 4 * time.Second   // non-GC process CPU spent inside one command before it counts as a (spinning) hang
+	evictSpinWall   = 4 * time.Second   // … and at least this much wall time must have passed as well
 	evictWallBudget = 180 * time.Second // last resort
 	evictChildSeqs  = 40                // sequences per child process (every instance leaks its ticker goroutine and its heap)
 )
@@ -138,7 +133,8 @@ func waitFor(cond func() bool, cpu0 time.Duration, t0 time.Time) string {
 			time.Sleep(500 * time.Microsecond)
 		}
 		if n%64 == 0 {
-			if c := cpuNow() - cpu0; c > evictCPUBudget {
+			// a spinning command burns a core for as long as it is watched: both clocks must agree
+			if c := cpuNow() - cpu0; c > evictCPUBudget && time.Since(t0) > evictSpinWall {
 				return fmt.Sprintf("spin cpu=%v wall=%v", c, time.Since(t0))
 			}
 			if time.Since(t0) > evictWallBudget {
